@@ -99,4 +99,15 @@ PROPS = {
         trusted=["modelled not verified: HashSet iteration order (SET OF members are sorted on both sides before comparison); tokio mpsc/oneshot, the driver loop (see C01/C13)"],
         assumptions=["SASL mechanisms other than EXTERNAL (GSSAPI, NTLM) are not compiled in and not modelled"],
     ),
+    "C19": dict(
+        groups=[("ctl", 3200, 200000)],
+        gen=["consts"],
+        exact_lanes=["ctl", "exop", "cresp"],
+        rule="every request control / extended request struct with boundary sizes, cookies of 0..300 and 70000 bytes, optional fields on/off, attribute lists, filters; "
+             "every response value kind (PagedResults, SyncState, SyncDone, the four SyncInfo alternatives with defaulted flags, Pre/PostRead entry, WhoAmI, PasswordModify, StartTxn) "
+             "spec-encoded with random legal length forms; a few malformed values. non-trivial = distinct case that did not panic",
+        trivial=["panic"],
+        trusted=["translator tools/translate.py (regex over `const NAME: &str|u64 = ...;` in controls_impl/*.rs, exop_impl/*.rs, filter.rs) -> coq/gen/Consts.v"],
+        assumptions=["EndTxnResp is not in the property's list (its parser expects a flattened update list; noted in DESIGN.md)", "the control list through the message envelope is C02's c02_envelope and C03's c03_from_the_wire_with_controls"],
+    ),
 }
